@@ -255,6 +255,21 @@ impl ObjectTransmissionInformation {
     }
 }
 
+#[cfg(feature = "verif_hooks")]
+impl ObjectTransmissionInformation {
+    pub fn verif_generate_encoding_parameters(
+        transfer_length: u64,
+        max_packet_size: u16,
+        decoder_memory_requirement: u64,
+    ) -> ObjectTransmissionInformation {
+        ObjectTransmissionInformation::generate_encoding_parameters(
+            transfer_length,
+            max_packet_size,
+            decoder_memory_requirement,
+        )
+    }
+}
+
 // Partition[I, J] function, as defined in section 4.4.1.2
 pub fn partition<TI, TJ>(i: TI, j: TJ) -> (u32, u32, u32, u32)
 where
